@@ -207,8 +207,14 @@ pub fn case_locks(bytes: &[u8], ctx: &mut Ctx) -> CaseResult {
         let i = s.below(n_spends);
         let j = (i + 1 + s.below(n_spends - 1)) % n_spends;
         spends[j].parent = spends[i].coin_id;
-        spends[j].amount = 10;
-        spends[j].coin_id = mc::coin_id(&spends[j].parent, &spends[j].ph, 10);
+        // the created coin's value plays no part in the rule: zero-value coins are
+        // legal, and then the bundle as a whole "creates nothing"
+        let eph_amount = [10u64, 0, 1, 999][s.below(4)];
+        if eph_amount == 0 {
+            ctx.label("ephemeral-coin-of-value-zero");
+        }
+        spends[j].amount = eph_amount;
+        spends[j].coin_id = mc::coin_id(&spends[j].parent, &spends[j].ph, eph_amount);
         let (ph, am) = (spends[j].ph, spends[j].amount);
         spends[i].creates.push((ph, am));
         // an ephemeral coin is confirmed "now"
@@ -533,7 +539,7 @@ pub fn property() -> Property {
             run: case_locks,
             inflight: false,
             min_nontrivial: 200_000,
-            required_labels: &["expected:pass", "expected:fail", "checked:pass", "has-ephemeral-pair", "value:negative", "value:oversized", "value:type-max", "has-bystander-conditions", "bystander:assert-ephemeral-on-ephemeral-spend"],
+            required_labels: &["expected:pass", "expected:fail", "checked:pass", "has-ephemeral-pair", "value:negative", "value:oversized", "value:type-max", "has-bystander-conditions", "bystander:assert-ephemeral-on-ephemeral-spend", "ephemeral-coin-of-value-zero"],
         }],
         death_is_violation: false,
     }
